@@ -143,7 +143,7 @@ fn wire_conformance(ctx: &mut Ctx) -> u64 {
     use crate::worlds::repl::{answer_kind, Cfg, Op, Repl};
     use kanidmd_lib::repl::proto::{ReplCidRange as PCidRange, ReplRuvRange};
     use kv_engine::forkdfs::World;
-    let cfg = Cfg { replicas: 2, slots: vec![0], names: 1, disp: true, rename: false, lifecycle: false, revive: false, members: false, refresh: false, aging: false, max_repl: 9, precreate: vec![0], same_time: false, props: ["C08"].into_iter().collect(), pre_ops: vec![], small: true };
+    let cfg = Cfg { class_edits: false, replicas: 2, slots: vec![0], names: 1, disp: true, rename: false, lifecycle: false, revive: false, members: false, refresh: false, aging: false, max_repl: 9, precreate: vec![0], same_time: false, props: ["C08"].into_iter().collect(), pre_ops: vec![], small: true };
     let mut w = Repl::new(cfg);
     // both replicas write twice and exchange, so that each holds a two-point window for both ids
     for op in [Op::SetDisp(1, 0, 0), Op::Repl(1, 0), Op::SetDisp(0, 0, 0), Op::SetMail(1, 0), Op::Repl(1, 0), Op::Repl(0, 1), Op::SetMail(0, 0)] {
